@@ -75,9 +75,14 @@ def generate(prop, seed, tier):
             # dtype of the data the user function returns (may differ from the input trace dtype)
             'ret_dtype': rng.stream(seed, 'retdtype').choice([None, None, 'float32', 'float64', 'int32', 'int64', 'uint16']),
             # returned values outside the range / resolution of the INPUT dtype (only with a wider returned dtype): the output must hold them exactly
-            'ret_bias': rng.stream(seed, 'retbias').choice([0, 0, 300, -7, 70000, 0.25]),
+            'ret_bias': rng.stream(seed, 'retbias').choice([0, 0, 300, -7, 70000, 0.25, 0.1]),      # 0.1: not representable in a narrower float
             # the user function may hand back the same buffer object on every call (overwritten in place)
-            'reuse_buffer': rng.stream(seed, 'reuse').random() < 0.2}
+            'reuse_buffer': rng.stream(seed, 'reuse').random() < 0.2,
+            # how the user function is written: the Synchronizer documents that it passes `trace_object` and its own keyword arguments by name,
+            # so any callable accepting those names is a legal function (parameter order, keyword-only, **kwargs, partial, bound method, object)
+            'fstyle': rng.stream(seed, 'fstyle').choice(['plain', 'plain', 'plain', 'second', 'kwonly', 'varkw', 'partial', 'method', 'object']),
+            # history: check() once more after run() - the second run() must still be refused
+            'check_after': rng.stream(seed, 'history2').choice([0, 0, 0, 2])}
 
 
 def make_input(scn):
@@ -184,6 +189,34 @@ def execute(scn):
             exc = K()
         raise exc
 
+    core = f
+    style = scn.get('fstyle', 'plain')
+    if style == 'second':
+        def f(scale, trace_object):                     # noqa: F811
+            return core(trace_object, scale)
+    elif style == 'kwonly':
+        def f(*, trace_object, scale=1):                # noqa: F811
+            return core(trace_object, scale)
+    elif style == 'varkw':
+        def f(**kw):                                    # noqa: F811
+            return core(kw['trace_object'], kw.get('scale', 1))
+    elif style == 'partial':
+        import functools
+
+        def g(tag, trace_object, scale=1):
+            return core(trace_object, scale)
+        f = functools.partial(g, 'bound')
+    elif style == 'method':
+        class Tool:
+            def sync(self, trace_object, scale=1):
+                return core(trace_object, scale)
+        f = Tool().sync
+    elif style == 'object':
+        class Callable:
+            def __call__(self, trace_object, scale=1):
+                return core(trace_object, scale)
+        f = Callable()
+
     scratch = tempfile.mkdtemp(prefix='verif_sync_', dir=SCRATCH_ROOT)
     fn = os.path.join(scratch, 'out.ets')
     out = fn if scn['out_kind'] == 'str' else pathlib.Path(fn)
@@ -238,6 +271,17 @@ def execute(scn):
                         if not (got.shape == w.shape and np.array_equal(got, w)):
                             violation = viol('output_metadata', ['C20', 'output_metadata', k], 'metadata %r of the output rows are not those of the originating traces (pattern %s)' % (k, pat))
                             break
+        if violation is None and scn.get('check_after'):
+            import contextlib
+            import io
+            ncalls = len(calls)
+            try:
+                with contextlib.redirect_stdout(io.StringIO()):
+                    sy.check(nb_traces=scn['check_after'])
+                probes['check_after_run'] = 1
+            except Exception:
+                probes['check_after_run_raised'] = 1
+            del calls[ncalls:]
         if violation is None:
             try:
                 sy.run()
@@ -299,7 +343,7 @@ def candidates(scn):
             c = copy.deepcopy(scn)
             c['pattern'] = scn['pattern'][:i] + 'r' + scn['pattern'][i + 1:]
             yield c
-    for key, val in (('label', False), ('gain', False), ('ptw', 1), ('tdtype', 'uint8'), ('out_kind', 'str'), ('scale', 1), ('outlen', scn['m']), ('m', 2), ('check_first', 0), ('ret_dtype', None), ('ret_bias', 0), ('reuse_buffer', False)):
+    for key, val in (('label', False), ('gain', False), ('ptw', 1), ('tdtype', 'uint8'), ('out_kind', 'str'), ('scale', 1), ('outlen', scn['m']), ('m', 2), ('check_first', 0), ('check_after', 0), ('fstyle', 'plain'), ('ret_dtype', None), ('ret_bias', 0), ('reuse_buffer', False)):
         if scn.get(key) != val:
             c = copy.deepcopy(scn)
             c[key] = val
